@@ -109,7 +109,18 @@ Definition ok_batch strict base (qs : list request) (b : body) (obs : cres json)
       if negb (forallb valid_response_json l) then raised obs XDeser
       else if negb (nodup_ids [] (map doc_id l)) then raised obs XIdentity
       else if strict && negb (same_set (call_ids qs) (ids_of_docs l)) then raised obs XIdentity
-      else if negb strict then true         (* lenient mode: covered by the correspondence only *)
+      else if negb strict then
+        (* lenient mode: foreign / missing responses are tolerated, but the answers that ARE linked to calls still come first and
+           in the order the calls were made *)
+        match obs with
+        | COk o =>
+            match obj_get "resps" o with
+            | Some (JArr rs) =>
+                let linked := cat_some (map (fun i => find_doc i l) (call_ids qs)) in
+                list_eqb json_eqb (firstn (List.length linked) (map (fun r => match obj_get "id" r with Some x => x | None => JNull end) rs))
+                                  (map (fun d => match obj_get "id" d with Some x => x | None => JNull end) linked)
+            | _ => true end
+        | CRaise _ => true end
       else
         match obs with
         | COk o =>
